@@ -910,7 +910,7 @@ func c07Runes(c C07Case, o c07Obs, set map[rune]bool) {
 			for _, s := range a.Val.Strs {
 				collectRunes(set, s)
 			}
-			if a.Val.Kind == "struct" || a.Val.Kind == "map" {
+			if a.Val.Kind == "struct" || a.Val.Kind == "map" || a.Val.Kind == "nilptr" {
 				collectRunes(set, fmt.Sprintf("{{%v}}", a.Val.Go()))
 			}
 			walk(a.Val.Items)
@@ -1327,6 +1327,8 @@ func c07Random(r *Rng, thorough bool) C07Case {
 		v := g.leaf()
 		if r.Chance(12) {
 			v = GVal{Kind: "nil"}
+		} else if r.Chance(8) {
+			v = GVal{Kind: "nilptr"} // a typed nil pointer is a value like any other (not "absent")
 		}
 		c.Ctx = append(c.Ctx, C07KV{k, v})
 	}
